@@ -20,6 +20,8 @@
      locals, function()'s attribute merging and is_root, primary()'s
      reference booking through `current_fn` (`cur`), mark_live, scan_globals,
      and the gating of emit_data / emit_text.  Computed incrementally.
+   ResetCurFn = FALSE (with everything else repaired) is D23 alone and must be
+   REJECTED by TLC as well.
    Fixed = FALSE is Level I of the pinned tree and must be REJECTED by TLC
      (sensitivity control and record of D23 and the defects found with it):
        - current_fn is never reset after function()            (D23)
@@ -27,9 +29,10 @@
        - scan_globals drops BOTH of two tentative definitions   (D30)
        - _Thread_local objects are never tentative -> redefined (D31)
        - .bss/.tbss objects get neither .type nor .size         (D32)
-   Known, recorded, not repaired (invariant relaxed exactly there, see
-   KnownInlineExt): an inline definition that another declaration turns into
-   an external definition stays internal in chibicc                (D33).
+       - an inline definition that another declaration turns into an
+         external definition stays internal                     (D33)
+   (D34, block-scope `static _Thread_local` placed in .data, is outside
+   Level I: the model gives anonymous objects the unit's TLS flag.)
 
    Three event generators (constant Mode):
      "obj"   all sequences of <= MaxLen events on one object name x
@@ -40,7 +43,7 @@
              InitAfterOwn), initializer after all definitions}             *)
 EXTENDS Integers, Sequences, FiniteSets, TLC, Json, CSV, IOUtils, SequencesExt
 
-CONSTANTS Mode, MaxLen, N, SelfLoops, InitAfterOwn, Fixed, Emit
+CONSTANTS Mode, MaxLen, N, SelfLoops, InitAfterOwn, Fixed, ResetCurFn, Emit
 
 Mx(a, b) == IF a > b THEN a ELSE b
 
@@ -217,21 +220,27 @@ Match(i, a) == CASE a.st \in {"nonglobal"} -> i.st \in {"none", "und"} \/ (i.st 
                  [] a.st = "optlocal"     -> i.st = "none" \/ (i.st = "def" /\ i.bind = "LOCAL")
                  [] OTHER                 -> i = a
 
-(* D33 (recorded): chibicc decides "static" when the FIRST declaration is a bare
-   `inline`; a later `extern`/non-inline declaration does not undo it. *)
+(* D33 (pinned tree; repaired): chibicc decided "static" when the FIRST declaration is a bare
+   `inline` and a later `extern`/non-inline declaration did not undo it.  The units of this
+   class are flagged in the emitted cases so that the replay classifies them narrowly. *)
 KnownInlineExt(s, n) == Len(FDecls(s, n)) > 0 /\ ExtDef(s, n) /\ FDecls(s, n)[1].inl /\ FDecls(s, n)[1].sc = "none"
 
 (* ================= Level I: functions ================= *)
 (* function(): find_func / new_gvar, attribute merging, is_root, current_fn *)
 FnStepI(e) ==
   LET old == e.name \in DOMAIN fns
-      f0  == IF old THEN [fns[e.name] EXCEPT !.def = @ \/ e.def]
+      (* repaired (D33): is_inline_only remembers that `static` came from a bare `inline`; a later
+         declaration without `inline` or with `extern` makes the definition external (6.7.4p7) *)
+      undo == Fixed /\ old /\ fns[e.name].ionly /\ e.sc # "static" /\ (~e.inl \/ e.sc = "extern")
+      f0  == IF old THEN [fns[e.name] EXCEPT !.def = @ \/ e.def,
+                                             !.ionly = @ /\ ~undo,
+                                             !.static = @ /\ ~undo]
              ELSE [def |-> e.def, static |-> e.sc = "static" \/ (e.inl /\ e.sc # "extern"),
-                   inline |-> e.inl, root |-> FALSE, refs |-> {}]
+                   inline |-> e.inl, ionly |-> e.inl /\ e.sc = "none", root |-> FALSE, refs |-> {}]
       f1  == [f0 EXCEPT !.root = (Fixed /\ @) \/ ~(f0.static /\ f0.inline)]   \* pinned: plain assignment
       f2  == IF e.def THEN [f1 EXCEPT !.refs = @ \cup e.refs] ELSE f1        \* primary(): refs booked on current_fn = fn
   IN /\ fns' = [n \in DOMAIN fns \cup {e.name} |-> IF n = e.name THEN f2 ELSE fns[n]]
-     /\ cur' = IF e.def THEN (IF Fixed THEN "" ELSE e.name) ELSE cur          \* repaired: current_fn = NULL after the body
+     /\ cur' = IF e.def THEN (IF Fixed /\ ResetCurFn THEN "" ELSE e.name) ELSE cur   \* repaired: current_fn = NULL after the body
      /\ UNCHANGED <<gl, inits>>
 (* gvar_initializer -> primary(): booked on current_fn if set, else the target becomes a root *)
 InitStepI(e) ==
@@ -324,7 +333,7 @@ FnRefines  == JudgedFn(es) =>
                     refd  == inits \cup UNION { Body(es, n) : n \in emit }
                     rowI(n) == IF n \in emit THEN DefRow(IF fns[n].static THEN "LOCAL" ELSE "GLOBAL", "FUNC", "text", 0, 0)
                                ELSE IF n \in refd THEN Und ELSE None
-                IN \A n \in FNames(es) : KnownInlineExt(es, n) \/ Match(rowI(n), RowFnA2(es, n, reach))
+                IN \A n \in FNames(es) : Match(rowI(n), RowFnA2(es, n, reach))
 (* sanity of Level A: a symbol is common only under -fcommon, never when
    initialised, internal or thread-local; internal <=> LOCAL *)
 AWellFormed ==
